@@ -147,6 +147,20 @@ func counterDirectlyUnderReader(p *Prog) (out []gFinding) {
 			}
 			n++
 			arg := ci.Common().Args[0]
+			// wrappers of the standard library that hand through exactly the bytes asked for do not
+			// disturb the count
+			for i := 0; i < 4; i++ {
+				call, ok := arg.(*ssa.Call)
+				if !ok {
+					break
+				}
+				switch p.calleeName(call.Common()) {
+				case "io.LimitReader", "io.TeeReader", "io.NopCloser":
+					arg = call.Common().Args[0]
+					continue
+				}
+				break
+			}
 			direct := false
 			if mi, ok := arg.(*ssa.MakeInterface); ok && mi.X == counter {
 				direct = true
